@@ -111,7 +111,7 @@ class Pipeline:
             from bycycle import Bycycle
             kw = S.call_kwargs(o)
             bm = Bycycle(center_extrema=kw['center_extrema'], burst_method=kw['burst_method'],
-                         burst_kwargs=kw.get('burst_kwargs'), thresholds=kw['threshold_kwargs'],
+                         burst_kwargs=kw.get('burst_kwargs'), thresholds=kw.get('threshold_kwargs'),
                          find_extrema_kwargs=kw.get('find_extrema_kwargs'), return_samples=True)
             try:
                 bm.fit(np.array(sig), o['fs'], o['f_range'])
